@@ -30,14 +30,19 @@ BQ_MORE = ['bq_from_slice_len_2', 'bq_from_slice_len_7', 'bq_from_slice_len_8', 
            'bq_from_slice_len_127', 'bq_from_slice_len_128', 'bq_from_slice_len_129', 'bq_unpack_16_bytes', 'bq_to_vec_non_optimized_8_bytes', 'bq_roundtrip_len_40']
 NODE_ID = ['node_id_to_bytes_contract', 'node_id_roundtrip_via_contract', 'node_id_from_bytes_reference_layout', 'node_mode_try_from_all_codes']
 
+TREE_INSERT = ['Writer::insert_items_in_file', 'randomly_split_children', 'Writer::fit_in_descendant',
+               'lemma_ins_item_new', 'lemma_ins_item_same', 'lemma_ins_desc', 'lemma_ins_split']
+FROZEN_ASSUMED = [('src/parallel.rs', "impl<'t, D: Distance> ImmutableLeafs<'t, D>", 'get'), ('src/parallel.rs', "impl<'t, D: Distance> ImmutableTrees<'t, D>", 'get')]
+
 PROPS = {
     'C01': {
         'verus': {'forest_lib': None,
                   'tree_delete': ['Writer::delete_items_in_file', 'Writer::fit_in_descendant', 'lemma_del_common', 'lemma_del_fit', 'lemma_del_one_side_empty', 'lemma_del_keep'],
+                  'tree_insert': TREE_INSERT,
                   'writer_scans': ['Writer::item_indices', 'Writer::reset_and_retrieve_updated_items', 'Writer::clear_db_and_create_a_single_leaf', 'clear_tree_nodes']},
         'assumed_fns': [('src/parallel.rs', "impl<'a, DE: BytesEncode<'a>> TmpNodes<DE>", 'put'), ('src/parallel.rs', "impl<'a, DE: BytesEncode<'a>> TmpNodes<DE>", 'remove'),
                         ('src/parallel.rs', "impl<'a, DE: BytesEncode<'a>> TmpNodes<DE>", 'remap'), ('src/parallel.rs', 'impl TmpNodesReader', 'to_insert'),
-                        ('src/parallel.rs', 'impl TmpNodesReader', 'to_delete')],
+                        ('src/parallel.rs', 'impl TmpNodesReader', 'to_delete')] + FROZEN_ASSUMED,
         'not_decided': [],
     },
     'C03': {
@@ -53,6 +58,8 @@ PROPS = {
                         'every returned id is in reader.item_ids(): needs metadata.items = item key set (C01 build contract)'],
     },
     'C04': {
+        'verus': {'tree_insert': TREE_INSERT},
+        'assumed_fns': FROZEN_ASSUMED,
         'kani': {'quick': [('distance_side', ['side_follows_margin_sign', 'pq_distance_prefers_the_margin_side', 'pq_distance_from_root'])]},
         'static': ['no_override_side_pq'],
         'not_decided': ['placement clauses of insert_items_in_file / make_tree_in_file and the reader push order are decided by the build-chain / reader units where claimed',
@@ -106,7 +113,9 @@ PROPS = {
         'not_decided': ['the second sentence of C13 (a build yields a C01 forest for every thread-pool size) beyond: the contracts of the per-tree functions never depend on the order in which other threads run'],
     },
     'C15': {
-        'verus': {'tree_count': ['Writer::fit_in_descendant', 'target_n_trees'], 'writer_scans': ['Writer::clear_db_and_create_a_single_leaf']},
+        'verus': {'tree_count': ['Writer::fit_in_descendant', 'target_n_trees'], 'writer_scans': ['Writer::clear_db_and_create_a_single_leaf'],
+                  'tree_insert': TREE_INSERT, 'tree_delete': ['Writer::delete_items_in_file', 'lemma_del_fit', 'lemma_del_one_side_empty', 'lemma_del_keep', 'lemma_del_common']},
+        'assumed_fns': FROZEN_ASSUMED,
         'trusted': ['the f64 hysteresis test of target_n_trees is an uninterpreted boolean'],
         'not_decided': ['reader-visible tree count and bucket bound after a whole build: decided by the build-chain units (delete_extra_trees, missing-tree loop, bucket clauses) where claimed'],
     },
